@@ -478,4 +478,7 @@ class PC(StructureEstimator):
                 undirected_edges.append((u, v))
             else:
                 directed_edges.append((u, v))
-        return PDAG(directed_ebunch=directed_edges, undirected_ebunch=undirected_edges)
+        pdag = PDAG(directed_ebunch=directed_edges, undirected_ebunch=undirected_edges)
+        # Keep the nodes which have no edges in the skeleton.
+        pdag.add_nodes_from(skeleton.nodes())
+        return pdag
